@@ -6,6 +6,7 @@ mod drive;
 mod obs;
 mod dumpcheck;
 mod hist;
+mod adaptors;
 
 mod c01;
 mod c02;
